@@ -203,6 +203,16 @@ BAD_ARGS = [
     (["-t", "nosuchtype", "-e", WORD], "type"), (["-T", "nosuchtype", "-e", WORD], "type"),
     (["--type-add", "broken", "-e", WORD], "type-add"), (["-e", "a\\nb"], "regex-newline"),
     (["--max-count", "notanumber", "-e", WORD], "number"), (["--no-such-flag", "-e", WORD], "flag"),
+    # the invalid pattern is one of several, in any position, with the others valid
+    (["-e", WORD, "-e", "(unclosed"], "regex-among-several"), (["-e", "(unclosed", "-e", WORD], "regex-among-several"),
+    (["-e", "foo\\nbar", "-e", WORD], "newline-among-several"), (["-e", WORD, "-e", "foo\\nbar"], "newline-among-several"),
+    # ... also as the raw terminator byte in plain / fixed-string patterns
+    (["-e", "foo" + chr(10) + "bar", "-e", "alpha", "-e", WORD], "raw-newline-among-several"),
+    (["-F", "-e", "foo" + chr(10) + "bar", "-e", WORD], "raw-newline-among-several"),
+    (["-e", WORD, "-e", "foo" + chr(10) + "bar", "-e", "zeta"], "raw-newline-among-several"),
+    (["--crlf", "-e", "foo" + chr(13) + "bar", "-e", WORD], "raw-cr-among-several"),
+    (["--crlf", "-F", "-e", "a" + chr(13) + "b", "-e", WORD], "raw-cr-among-several"),
+    (["--null-data", "-e", "a\\x00b", "-e", WORD], "nul-among-several"),
 ]
 
 
